@@ -153,7 +153,7 @@ package util
 //@   ensures [range] result.1 == nil ==> result.0 >= 0 && result.0 <= 0x7fffff
 //@   ensures [wf] rwf(rd)
 //@ func WriteExtendedForgeShort
-//@   props C03
+//@   props C03 C07
 //@   at-call WriteUint16 as low: assert [short-with-continuation-flag] arg1 == uint16(toWrite & 0x7fff) | ite((toWrite & 0x7f8000) != 0, 0x8000, 0)
 //@   at-call Write as high: assert [third-byte-iff-needed] called(low) && res(low) == nil && (toWrite & 0x7f8000) != 0 && len(arg1) == 1 && arg1[0] == byte((toWrite & 0x7f8000) >> 15)
 //@   ensures [third-byte-iff-needed] called(low) && (res(low) == nil && (toWrite & 0x7f8000) != 0 ==> called(high))
@@ -165,7 +165,7 @@ package util
 //@   ensures [oversized-rejected] called(l) && res(l, 1) == nil && res(l, 0) > ForgeMaxArrayLength ==> result.1 != nil && !called(fill)
 //@   ensures [truncated-body-is-an-error] called(fill) ==> result.1 == res(fill, 1)
 //@ func WriteBytes17
-//@   props C03
+//@   props C03 C07
 //@   at-call WriteExtendedForgeShort as l: assert arg1 == len(b) && len(b) <= ite(allowExtended, ForgeMaxArrayLength, 32767)
 //@   at-call Write as body: assert called(l) && res(l) == nil && arg1 == b
 
